@@ -198,6 +198,7 @@ type tracerObj interface {
 	Trace(*pb.TraceEvent)
 	Close()
 	VerifBufLen() int
+	VerifClosed() bool
 }
 
 type run struct {
@@ -238,10 +239,22 @@ func (r *run) ev() int {
 }
 
 func (r *run) ret(id int, res string) {
-	// log first: whoever then sees the call as returned (the real-time drivers poll blocked()) finds its line written
-	r.out.Emit(M{"e": "ret", "id": id, "res": res})
+	// the line and the bookkeeping change together (see quiet): the log never contradicts a "blocked" list
 	r.mu.Lock()
+	r.out.Emit(M{"e": "ret", "id": id, "res": res})
 	delete(r.open, id)
+	r.mu.Unlock()
+}
+
+// quiet writes a quiescence line; its list of calls that have not returned is exact with respect to the "ret"
+// lines before and after it.
+func (r *run) quiet(buf int, wpos string) {
+	r.mu.Lock()
+	b := []int{}
+	for id := range r.open {
+		b = append(b, id)
+	}
+	r.out.Emit(M{"e": "quiet", "blocked": b, "buf": buf, "wpos": wpos})
 	r.mu.Unlock()
 }
 
@@ -430,7 +443,7 @@ func fileScenario(out *vh.Out, wd *watchdog, s fileScn, kind string, lossy bool)
 	defer wd.inStep.Store(false)
 	quiet := func() {
 		synctest.Wait()
-		out.Emit(M{"e": "quiet", "blocked": r.blocked(), "buf": r.tr.VerifBufLen(), "wpos": g.wpos()})
+		r.quiet(r.tr.VerifBufLen(), g.wpos())
 		wd.progress.Add(1)
 	}
 	gateOn, closed := false, false
